@@ -45,6 +45,45 @@ class _Rewrite:
             out.extend(self.stmt(st))
         return out
 
+    def update_form(self, st):
+        """``m.update(zip(ks, vs))`` / ``m.update((k, v) for ... if c)`` / ``m.update({k: v for ...})`` as a loop of
+        item stores into ``m`` (what ``dict.update`` does with an iterable of pairs)."""
+        if not (isinstance(st, ast.Expr) and isinstance(st.value, ast.Call)):
+            return None
+        call = st.value
+        if not (isinstance(call.func, ast.Attribute) and call.func.attr == "update" and isinstance(call.func.value, ast.Name) and len(call.args) == 1 and not call.keywords):
+            return None
+        m = call.func.value.id
+        arg = call.args[0]
+        store = lambda k, v: ast.Assign(targets=[ast.Subscript(value=ast.Name(id=m, ctx=ast.Load()), slice=k, ctx=ast.Store())], value=v)
+        if isinstance(arg, ast.Call) and isinstance(arg.func, ast.Name) and arg.func.id == "zip" and len(arg.args) == 2 and not arg.keywords:
+            self.counter += 1
+            k, v = "_uk%d" % self.counter, "_uv%d" % self.counter
+            tgt = ast.Tuple(elts=[ast.Name(id=k, ctx=ast.Store()), ast.Name(id=v, ctx=ast.Store())], ctx=ast.Store())
+            new = [ast.For(target=tgt, iter=arg, body=[store(ast.Name(id=k, ctx=ast.Load()), ast.Name(id=v, ctx=ast.Load()))], orelse=[])]
+        elif isinstance(arg, (ast.GeneratorExp, ast.ListComp)) and isinstance(arg.elt, ast.Tuple) and len(arg.elt.elts) == 2:
+            inner = [store(arg.elt.elts[0], arg.elt.elts[1])]
+            for gen in reversed(arg.generators):
+                for cond in reversed(gen.ifs):
+                    inner = [ast.If(test=cond, body=inner, orelse=[])]
+                inner = [(ast.AsyncFor if gen.is_async else ast.For)(target=gen.target, iter=gen.iter, body=inner, orelse=[])]
+            new = inner
+        elif isinstance(arg, ast.DictComp):
+            inner = [store(arg.key, arg.value)]
+            for gen in reversed(arg.generators):
+                for cond in reversed(gen.ifs):
+                    inner = [ast.If(test=cond, body=inner, orelse=[])]
+                inner = [(ast.AsyncFor if gen.is_async else ast.For)(target=gen.target, iter=gen.iter, body=inner, orelse=[])]
+            new = inner
+        else:
+            return None
+        out = []
+        for n in new:
+            n = ast.copy_location(n, st)
+            ast.fix_missing_locations(n)
+            out.append(n)
+        return out
+
     def stmt(self, st):
         for field in ("body", "orelse", "finalbody"):
             if isinstance(getattr(st, field, None), list) and not isinstance(st, (ast.FunctionDef, ast.AsyncFunctionDef, ast.ClassDef)):
@@ -53,6 +92,10 @@ class _Rewrite:
             for h in st.handlers:
                 h.body = self.block(h.body)
         target = None
+        upd = self.update_form(st)
+        if upd is not None:
+            self.changed = True
+            return upd
         if isinstance(st, ast.Assign) and len(st.targets) == 1 and isinstance(st.targets[0], ast.Name):
             comp, kind = _unwrap(st.value)
             target = st.targets[0].id
